@@ -17,7 +17,8 @@ package main
 //        call     = 1 | 2      which BucketCompactor.Compact call of the same compactor (2: after a clean first call)
 //        sync     = ordinal of the metadata sync inside that call (every loop iteration syncs once)
 //        readKind = listing | exists-meta | get-meta | get-deletion-mark | get-no-compact-mark ; n = ordinal among the
-//                   reads of that kind in that sync ; outcome = failed | notfound | corrupt | badversion
+//                   reads of that kind in that sync ; outcome = failed | notfound | corrupt | badversion |
+//                   body0 | bodyhalf | bodylast (Get returns nil and a reader that breaks after 0 / half / all-but-one bytes)
 //   c33.multi <layout> <lister> <conc> <call> <sync> <readKind>:<n>:<outcome>,…
 //        several reads of ONE sync end badly; conc = concurrency of the fetcher and of the marker filters (1 | 4)
 //   answer: sync=failed compact=<err|ok> writes-after=<number>  |  sync=ok compact=n/a writes-after=n/a  |  not-reached
@@ -339,7 +340,7 @@ func c33Run(c *hlib.Ctx, layout, lister string, conc int, rec *c33Recorder) c33R
 		}
 		// a transient failure of a sync read must fail that sync
 		for i, e := range evs {
-			if e.kind == "fault" && strings.HasSuffix(e.what, " failed") {
+			if e.kind == "fault" && (strings.HasSuffix(e.what, " failed") || strings.Contains(e.what, " body")) {
 				for _, e2 := range evs[i:] {
 					if e2.kind == "sync-end-ok" {
 						c.Violation("read-failure-swallowed", "read failed ("+e.what+") and the sync reported no error")
@@ -383,7 +384,8 @@ func execC33(c *hlib.Ctx, tok []string) string {
 		case "listing", "exists-meta":
 			return outcome == "failed"
 		case "get-meta", "get-deletion-mark", "get-no-compact-mark":
-			return outcome == "failed" || outcome == "notfound" || outcome == "corrupt" || outcome == "badversion"
+			return outcome == "failed" || outcome == "notfound" || outcome == "corrupt" || outcome == "badversion" ||
+				outcome == "body0" || outcome == "bodyhalf" || outcome == "bodylast"
 		}
 		return false
 	}
@@ -517,6 +519,17 @@ func genC33(c *hlib.Ctx) {
 					if k != "listing" && k != "exists-meta" && ((c.Tier != "quick" && (n == 1 || n == cnt || c.R.Chance(1, 4))) || (c.Tier == "quick" && c.R.Chance(1, 3))) {
 						outcomes = append(outcomes, "notfound", "corrupt", "badversion")
 					}
+					if k != "listing" && k != "exists-meta" {
+						// the body of the object breaks while it is read (for meta.json: always; markers: sampled)
+						bodies := []string{"body0", "bodyhalf", "bodylast"}
+						if c.Tier == "quick" {
+							if k == "get-meta" || c.R.Chance(1, 3) {
+								outcomes = append(outcomes, bodies[c.R.Intn(3)])
+							}
+						} else if k == "get-meta" || n == 1 || n == cnt || c.R.Chance(1, 4) {
+							outcomes = append(outcomes, bodies...)
+						}
+					}
 					for _, o := range outcomes {
 						c.Do(fmt.Sprintf("c33.fault %s %s %d %d %s %d %s", cf.layout, cf.lister, s.call, s.sync, k, n, o), true)
 					}
@@ -527,7 +540,7 @@ func genC33(c *hlib.Ctx) {
 		if cf.layout != "full" {
 			continue
 		}
-		allOutcomes := []string{"failed", "notfound", "corrupt", "badversion"}
+		allOutcomes := []string{"failed", "notfound", "corrupt", "badversion", "body0", "bodyhalf", "bodylast"}
 		tolerated := []string{"notfound", "corrupt"}
 		for _, s := range syncs {
 			rounds := c.N(1, 8)
@@ -565,7 +578,7 @@ func genC33(c *hlib.Ctx) {
 						case 0:
 							o = tolerated[c.R.Intn(2)]
 						default:
-							o = allOutcomes[c.R.Intn(4)]
+							o = allOutcomes[c.R.Intn(len(allOutcomes))]
 						}
 					} else if mode == 0 {
 						continue
